@@ -416,6 +416,14 @@ func (e *Engine) typeTag(t types.Type) int {
 
 // ContractFor returns the contract attached to fn (in-package or extern), or nil.
 func (e *Engine) ContractFor(fn *ssa.Function) *contract.Func {
+	// an `extern` declaration in the contract file of a package under verification is that package's view
+	// of a dependency: it takes precedence over the dependency's own contract (which may be stated in
+	// another arithmetic mode); the restatement is reported as an assumed contract
+	if c, ok := e.Externs[shortName(fn.String())]; ok && e.externFromPkg[shortName(fn.String())] {
+		if own, has := e.Contracts[fn.String()]; !has || own != c {
+			return c
+		}
+	}
 	if c, ok := e.Contracts[fn.String()]; ok {
 		return c
 	}
